@@ -3,6 +3,7 @@ package c19
 import (
 	"encoding/xml"
 	"fmt"
+	"math"
 	"net/http"
 	"net/url"
 	"sort"
@@ -725,9 +726,9 @@ func init() {
 
 	// ---- bits of binary, file metadata, hashes, trust messages -----------------------------------
 	register(spec[bin.Data]{name: "bin.Data",
-		witnesses: []bin.Data{{Data: []byte("A")}, {Data: []byte("AB"), Type: "text/plain"}},
+		witnesses: []bin.Data{{Data: []byte("A")}, {Data: []byte("AB"), Type: "text/plain"}, {CID: "c", MaxAge: 400 * time.Millisecond}},
 		gen: func(g *gen) bin.Data {
-			ages := []time.Duration{0, time.Second, 90 * time.Second, 86400 * time.Second, 1500 * time.Millisecond}
+			ages := []time.Duration{0, time.Second, 90 * time.Second, 86400 * time.Second, 1500 * time.Millisecond, 400 * time.Millisecond, 500 * time.Millisecond, 2500 * time.Millisecond, -time.Second}
 			return bin.Data{CID: g.opt(), MaxAge: ages[g.r.Intn(len(ages))], NoCache: g.r.Chance(1, 4), Type: g.opt(), Data: g.bytes()}
 		},
 		marshalPtr: true,
@@ -739,10 +740,11 @@ func init() {
 		},
 		norm: func(v bin.Data) bin.Data {
 			// documented: MaxAge is rounded to the nearest second; NoCache overrides it
-			if v.NoCache {
+			if v.NoCache || v.MaxAge < 0 {
+				// a negative age is no hint at all
 				v.MaxAge = 0
 			} else {
-				v.MaxAge = v.MaxAge.Round(time.Second)
+				v.MaxAge = time.Duration(math.RoundToEven(v.MaxAge.Seconds())) * time.Second
 			}
 			return v
 		},
